@@ -59,7 +59,7 @@ class C06(Check):
     rule = (
         "cases: (a) the complete product of the per-member alphabet {absent,null,true,false,0,1,-1,1.0,1.5,'','2.0','x',[],[1],{},"
         "{'a':1},2.0,2} over jsonrpc/id/method/params (requests: 104976), jsonrpc/id/result/error with error over the alphabet plus 12 "
-        "error objects (responses: 174960) and code/message/data (errors: 5832), enumerated in both tiers; (b) Hypothesis-generated "
+        "error objects (responses: 174960), code/message/data (errors: 5832) and jsonrpc/id/result/error of an object handed to BatchResponse.from_json (batch-level errors: 17496), enumerated in both tiers; (b) Hypothesis-generated "
         "arbitrary JSON values, messages with nested payloads and extra members, batches of 0..3 elements, batch-level error objects; "
         "(c) append/extend histories over the id alphabet {null,0,1,2,'1',''}. Oracle: independent validity predicates "
         "(pbt/wellformed.py): valid => object with jeq-equal members, invalid => DeserializationError, duplicate ids => "
@@ -95,6 +95,11 @@ class C06(Check):
                 yield {'kind': 'response', 'value': obj(jsonrpc=j, id=i, result=r, error=e)}
         for c, m, d in itertools.product(ALPHA, repeat=3):
             yield {'kind': 'error', 'value': obj(code=c, message=m, data=d)}
+        # an OBJECT where a response array is expected: only a well-formed batch-level error (version, null id, error, no result) may pass
+        for j, i in itertools.product(ALPHA, repeat=2):
+            for r in (ABSENT, None, 0):
+                for e in [ABSENT, None, 1, 'x', [], {}] + ERR_OBJECTS:
+                    yield {'kind': 'batch_response', 'value': obj(jsonrpc=j, id=i, result=r, error=e)}
 
     def enum_shards(self, tier: str) -> int:
         return 16
@@ -111,7 +116,7 @@ class C06(Check):
                         yield {'kind': 'response', 'value': obj(jsonrpc='2.0', id=i, result=r, error=obj(code=c, message=m, data=d))}
 
     def exhaustive_note(self, tier: str) -> str:
-        return "request / response / error member-alphabet products enumerated completely (286k objects); batches, nested payloads and histories are sampled"
+        return "request / response / error / batch-level-error member-alphabet products enumerated completely (303k objects); batches, nested payloads and histories are sampled"
 
     def strategy(self, tier: str):
         a = st.sampled_from(ALPHA)
